@@ -54,7 +54,7 @@ ExportBehaviours ==
 DeliveriesRelated == (s.pc = "deliver") => Related(CallView(s), ExecView(s))
 AttemptsBounded == s.ninv <= cfg.maxAtt
 InvokeWithinDeadline == (ev.e = "invoke") => ev.t <= cfg.D
-SleepWithinRemaining == (ev.e = "sleep") => (ev.s >= 0 /\ ev.s <= cfg.D - ev.t)
+SleepWithinRemaining == (ev.e = "sleep") => (ev.s >= 0 /\ ev.s <= cfg.D)
 
 (***************************************************************************)
 (* Building blocks for focused configurations                              *)
@@ -73,6 +73,8 @@ FailOuts(kinds, classes, ras) == { Out(o, k, ra) : o \in kinds, k \in classes, r
 RetsOne == {Val(1)}
 RetsTwoSmall == {Val(0), Val(2)}
 RasNone == {None}
+ZeroDur == {0}
+SomeDur == {0, 2}
 BFaultsNone == {"none"}
 BFaultsAll == {"none", "error", "kbd", "sysexit", "cancel"}
 AdvsExact == {"exact"}
